@@ -13,7 +13,32 @@ SET_DEFS = [
     ((("N", "NE", "E", "SE"), ((157.5, 22.4), (22.5, 67.4), (67.5, 112.4), (112.5, 157.4)))),
     ((("n", "empty", "e", "se"), ((157.5, 22.4), (22.5, 22.6), (22.7, 112.4), (112.5, 157.4)))),
     ((("empty0", "w", "x", "y", "empty9"), ((0.001, 0.002), (160, 30), (30.5, 100), (100.5, 159.5), (179.9985, 179.999)))),
+    # range ends ON lattice directions (45 / 135 degrees, inclusive at both ends; nothing adjoins them): diagonal traces sit exactly on a range end
+    ((("ns", "ew"), ((135, 45), (46, 134)))),
 ]
+
+
+def ref_set(g, names, ranges):
+    """documented set of a trace, independently of the package: azimuth of the chord (clockwise from north, halved), first range that contains it
+    (both ends inclusive, wrap-around when lower > upper), else the null set; None when the azimuth is within 1e-9 of a range end without being it"""
+    import math
+
+    (x0, y0), (x1, y1) = g.coords[0][:2], g.coords[-1][:2]
+    az = 90 - math.degrees(math.atan2(y1 - y0, x1 - x0))
+    if az < 0:
+        az += 360
+    if az > 360:
+        az -= 360
+    if az >= 180:
+        az -= 180
+    for lo, hi in ranges:
+        for b in (lo, hi):
+            if az != b and abs(az - b) < 1e-9:
+                return None
+    for nm, (lo, hi) in zip(names, ranges):
+        if (lo > hi and (az >= lo or az <= hi)) or lo <= az <= hi:
+            return nm
+    return "-1"
 
 
 def s12_intersect(ctx, drv=None, name="S12-intersect"):
@@ -72,8 +97,19 @@ def run_map(ctx, traces, area, kind, ar, t, names, ranges, res, stream):
     except Exception as e:
         res.disagreements.append(Disagreement(stream, case, None, f"{type(e).__name__}: {str(e)[:200]}", None, "Network raised"))
         return
-    # set of every model piece = set the implementation assigned to the matching cropped trace (C15 decides sets)
     geoms = list(net.trace_gdf.geometry.values)
+    # the sets themselves: the documented assignment, computed independently (a relation reported under a wrong set is a wrong row)
+    refs = [ref_set(g, names, ranges) for g in geoms]
+    if any(r is None for r in refs):
+        res.skipped["azimuth_within_1e-9_of_a_range_end"] = res.skipped.get("azimuth_within_1e-9_of_a_range_end", 0) + 1
+        return
+    if [str(x) for x in sets_impl] != refs:
+        bad = [(g.wkt, str(a_), b_) for g, a_, b_ in zip(geoms, sets_impl, refs) if str(a_) != b_][:3]
+        res.evaluations += 1
+        res.disagreements.append(Disagreement(stream, case, refs, [str(x) for x in sets_impl], True,
+                                              f"a trace is assigned to another set than the one whose range contains its azimuth: {bad}"))
+        return
+    # set of every model piece = set of the matching cropped trace
     piece_sets = []
     tol = t / 100
     for pc in ar.pieces:
@@ -111,6 +147,14 @@ def s12_relations(ctx):
     rng = rng_for(ctx.seed, "S12")
     t = 0.01
     maps, _ = valid_maps(ctx, rng, budget(ctx.tier, 30, 500), F(t), area_kinds=("box", "circle"), nmax=9)
+    # a fixed map with traces exactly along 45 / 135 degrees (they sit ON the ends of the wrap-around range of the last definition)
+    from shapely.geometry import box as _box
+
+    diag = [[(F(0), F(0)), (F(10), F(0))], [(F(2), F(-3)), (F(8), F(3))], [(F(1), F(6)), (F(9), F(-2))], [(F(3), F(-6)), (F(3), F(6))]]
+    darea = _box(-20, -20, 20, 20)
+    dar = Arrangement(ctx.driver.batch([arr_request(diag, [darea], F(t))])[0])
+    if dar.valid:
+        maps = [(diag, darea, "box", dar)] + list(maps)
     for traces, area, kind, ar in maps:
         for names, ranges in SET_DEFS:
             run_map(ctx, traces, area, kind, ar, t, names, ranges, res, "S12-relations")
